@@ -35,6 +35,11 @@ VEC_FOOT = re.compile(r"^# (\d+) element vector <(.+)>$")
 TAB_FOOT = re.compile(r"^# (\d+)×(\d+) table(?: <(.*)>)?$")
 
 
+from decimal import Decimal as _Dec
+from fractions import Fraction as _Frac
+from datetime import time as _time, timedelta
+
+
 def dtype_token(vec):
 	s = vec.schema()
 	if s is None:
@@ -344,6 +349,14 @@ SIMPLE = {
 	"str": ["a", "bc", "Zed", "x_1", "é"],
 	"bool": [True, False],
 	"date": [V.D0, date(2021, 2, 28), date(1999, 12, 31)],
+	# kinds beyond the built-in scalars keep their own class as dtype; Ellipsis is an ordinary value of an object column
+	"Decimal": [_Dec("1.5"), _Dec("0"), _Dec("-2.25")],
+	"Fraction": [_Frac(1, 3), _Frac(5, 2), _Frac(-7, 4)],
+	"timedelta": [timedelta(days=1), timedelta(hours=5), timedelta(0)],
+	"tuple": [(1, 2), (3,), (), (4, 5, 6)],
+	"time": [_time(5, 30), _time(0, 0), _time(23, 59, 59)],
+	"object-ellipsis": [1, Ellipsis, "a", 2.5, Ellipsis, b"x"],
+	"ellipsis": [Ellipsis],
 }
 HOSTILE = {
 	"float": [float("nan"), float("inf"), float("-inf"), -0.0, 1e300, 1e-300, 0.1, 5e-324, 1.0],
